@@ -14,12 +14,15 @@ PROPS_FILE = "Props/C11.v"
 PROPS_MODULE = "Props.C11"
 RULE = ("exhaustive enumeration of tempo lists on the half-beat grid (quick: <=2 changes after the first within 3 measures x 3 bpm "
         "pairs x metronomes {3,4}; thorough: <=3 changes) plus seeded random lists on grids 1/3,1/4,1/7,1/16,1/96,1/1000 "
-        "(1..6 changes, shared metronome 1..8, any initial offset); the implementation runs on fractions.Fraction; "
+        "(1..6 changes, shared metronome 1..8, any initial offset); lists with two changes on ONE position (half-beat grid; outside the "
+        "theorems' strict domain: structural equality with the model + the weaker oracle reseat_specb_ties); the implementation runs on fractions.Fraction; "
         "non-trivial = at least one change off a measure line; distinct by hash of canonical JSON")
 ASSUMPTIONS = [
     "exact arithmetic only: the implementation is executed on fractions.Fraction (RAConst.MIN_TO_MSEC patched to Fraction(60000) "
     "in the harness process); binary64 behaviour of reseat is not claimed (float noise changes which branch is taken)",
     "lists mixing metronomes at off-line positions are outside the claimed domain (explored by correspondence only)",
+    "two changes on one position: not covered by the theorems (wf_unseated is strict); per run the model must equal the implementation "
+    "structurally and the output must be on measure lines with non-decreasing measures, keep every original time and add at most one point per interval",
 ]
 TRUSTED = []
 MANIFEST = dict(
@@ -91,6 +94,20 @@ def generate(rng, tier):
             pos.append(pos[-1] + step)
         bpms = [rng.choice(BPMS) for _ in pos]
         cases.append(_mk_case("reseat", met, pos, bpms))
+    # two changes on ONE position (half-beat grid, so that no extend window is involved): outside the theorems' strict
+    # domain, judged by structural equality with the model and the weaker oracle reseat_specb_ties
+    for _ in range(60 if tier == "quick" else 1500):
+        met = rng.choice([4, 4, 3, 5])
+        n = rng.choice([2, 3, 3, 4])
+        grid = [Fr(k, 2) for k in range(1, 2 * met * 3 + 1)]
+        pos = sorted(rng.sample(grid, n))
+        j = rng.randrange(len(pos))
+        pos.insert(j, pos[j])                     # the tie (never the first change at 0)
+        pos = [Fr(0)] + pos
+        bpms = rng.sample(BPMS, min(len(pos), len(BPMS)))
+        while len(bpms) < len(pos):
+            bpms.append(rng.choice(BPMS))
+        cases.append(_mk_case("reseat_tie", met, pos, bpms))
     # random finer grids
     n_rand = 250 if tier == "quick" else 8000
     for _ in range(n_rand):
@@ -143,7 +160,7 @@ def execute(case):
     RAConst.MIN_TO_MSEC = Fr(60000)
     try:
         try:
-            if case["kind"] == "reseat":
+            if case["kind"] in ("reseat", "reseat_tie"):
                 r = TimingMap.reseat_bpm_changes_snap(_mk(case["l"]))
                 out = {"v": [_bcsj(b) for b in r]}
                 # which branch family was involved (for classification only)
@@ -165,7 +182,7 @@ def execute(case):
                 return {"bco_in": bco_in, "v": [_bcoj(b) for b in tm.bpm_changes_offset]}
         except (IndexError, ValueError, ZeroDivisionError) as e:
             out = {"v": None, "exc": type(e).__name__ + ": " + str(e)[:100]}
-            if case["kind"] == "reseat":
+            if case["kind"] in ("reseat", "reseat_tie"):
                 out["extend_involved"] = True
             if case["kind"] == "tm_reseat":
                 try:
@@ -196,6 +213,8 @@ def emit(case, out):
     l = F.lst([_bcs_in(c) for c in case["l"]])
     if case["kind"] == "reseat":
         return f"CReseat {l} {F.opt(out['v'], lambda v: F.lst([_bcs_out(b) for b in v]))}"
+    if case["kind"] == "reseat_tie":
+        return f"CReseatTie {l} {F.opt(out['v'], lambda v: F.lst([_bcs_out(b) for b in v]))}"
     if case["kind"] == "from_reseat":
         return f"CFromReseat {F.q(F.frac_from_json(case['init']))} {l} {F.opt(out['v'], lambda v: F.lst([_bco(b) for b in v]))}"
     if case["kind"] == "tm_reseat":
